@@ -262,8 +262,32 @@ pub fn triples() -> Vec<Case> {
                             if cres != want && !(want == Ty::Float && cres == Ty::Int && p != BinOp::Coalesce) {
                                 continue;
                             }
-                            for k in 0..2 {
-                                let child = Expr::bin(c, std_leaf(cl, k), std_leaf(cr, k + 1));
+                            // k = 0,1: leaf operands; k = 2..4: the child's own operands are
+                            // parenthesised sub-expressions (left / right / both), so that the child's
+                            // SQL text starts with "(" and/or ends with ")"
+                            for k in 0..5 {
+                                let wrap = |e: Expr, ty: Ty| -> Expr {
+                                    match ty {
+                                        Ty::Int | Ty::Float => Expr::bin(BinOp::Add, e, Expr::Lit(Val::Int(1))),
+                                        Ty::Bool => Expr::bin(BinOp::Or, e, Expr::bin(BinOp::Lt, col("i2"), Expr::Lit(Val::Int(0)))),
+                                        Ty::Text => Expr::bin(BinOp::Coalesce, e, Expr::Lit(Val::Text("b".into()))),
+                                    }
+                                };
+                                let (lw, rw) = match k {
+                                    2 => (true, false),
+                                    3 => (false, true),
+                                    4 => (true, true),
+                                    _ => (false, false),
+                                };
+                                let mut lo = std_leaf(cl, k);
+                                let mut ro = std_leaf(cr, k + 1);
+                                if lw {
+                                    lo = wrap(lo, cl);
+                                }
+                                if rw {
+                                    ro = wrap(ro, cr);
+                                }
+                                let child = Expr::bin(c, lo, ro);
                                 let other = std_leaf(if side == 0 { pr } else { pl }, k + 2);
                                 let e = if side == 0 {
                                     Expr::bin(p, child, other)
